@@ -178,7 +178,6 @@ impl PairCfg {
         }
         if self.small_sctp_buffer {
             c.sctp_max_buffered_amount = 8 * 1024;
-            c.sctp_receive_window = 16 * 1024;
         }
         c
     }
